@@ -660,7 +660,8 @@ def native_build(g, wd, env):
             "-fno-omit-frame-pointer", "-w"] + inc + defs
     objs = []
     units = [(os.path.join(VERIF, g["harness"]), []), (os.path.join(VERIF, "lib/native_rt.c"), [])] + \
-        [(os.path.join(REPO, s), list(g["native_cflags"])) for s in srcs if not s.endswith("core/util.c")] + \
+        [((os.path.join(VERIF, s[1:]) if s.startswith("@") else os.path.join(REPO, s)), list(g["native_cflags"]))
+         for s in srcs if not s.endswith("core/util.c")] + \
         [(os.path.join(REPO, s), ["-D" + x for x in d]) for (s, d) in g["extra_units"]]
     for i, (f, extra) in enumerate(units):
         if f.startswith(REPO + os.sep) or "/stubs/" in f:
